@@ -1,6 +1,6 @@
 (* C14 — vxfw layout contract and surface addressing hold for every constraint.
-   Statements only; proofs live in proofs/SurfaceProofs.v, proofs/WidgetsProofs.v and
-   proofs/RenderProofs.v.
+   Statements only; proofs live in proofs/SurfaceProofs.v, proofs/WidgetsProofs.v,
+   proofs/WidgetsHistProofs.v and proofs/RenderProofs.v.
 
    Full statement (properties.jsonl): every built-in widget, for every drawing constraint,
    returns a surface no larger than the maximum it was given, centres a child that fits so
@@ -14,8 +14,9 @@
    width, with these limits — the line scanners and ctx.Characters are oracles (the theorems
    hold for whatever lines they yield); list.Dynamic is modelled in its initial scroll state
    only (scrolling is C19); styles and the cursor part of render are not modelled. *)
-From Vx Require Import base.Prelude model.Surface model.Widgets
-  proofs.SurfaceProofs proofs.WidgetsProofs proofs.RenderProofs proofs.PaintProofs.
+From Vx Require Import base.Prelude model.Surface model.Widgets model.WidgetsHist
+  proofs.SurfaceProofs proofs.WidgetsProofs proofs.RenderProofs proofs.PaintProofs
+  proofs.WidgetsHistProofs.
 From Coq Require Import Permutation Sorted.
 
 (* ================================================================== surface addressing *)
@@ -161,6 +162,91 @@ Example C14_example_text :
   end /\
   draw (WCenter (WField [])) 65535 3 = DPanic /\ contract_panic (WCenter (WField [])) 65535 3 = true.
 Proof. repeat split; vm_compute; reflexivity. Qed.
+
+(* ================================================================== histories of draws on one widget value *)
+
+(* An application draws the SAME widget value every frame, with changing constraints and with
+   fields changed in between.  [sdraw ws top maxw maxh] (model/WidgetsHist.v) is Draw as a method
+   on the object: it reads and returns the one piece of state a Draw of a built-in widget
+   writes, the scroll index [top] of the list.Dynamic reached from the root through Center
+   widgets; [hist_run top steps] threads it through a sequence of draws.
+
+   The object as built behaves as the [draw] of the theorems above. *)
+Theorem C14_history_fresh_value : forall ws maxw maxh,
+  snd (sdraw ws 0 maxw maxh) = draw ws maxw maxh.
+Proof. exact sdraw_fresh. Qed.
+Print Assumptions C14_history_fresh_value.
+
+(* "No larger than the maximum, panic only where documented" for a draw in ANY state that
+   earlier draws may have left behind, every widget tree, every constraint 0..65535. *)
+Theorem C14_history_size_within_max : forall ws top maxw maxh,
+  0 <= maxw < 65536 -> 0 <= maxh < 65536 ->
+  match snd (sdraw ws top maxw maxh) with
+  | DOk s => wf_tree s /\ 0 <= s_w s <= maxw /\ 0 <= s_h s <= maxh
+  | DPanic => contract_panic ws maxw maxh = true
+  end.
+Proof. exact sdraw_contract_all. Qed.
+Print Assumptions C14_history_size_within_max.
+
+(* Every step of every history (any length, any sequence of constraints — zero, tiny, repeated,
+   unbounded —, any change of the fields between the steps, any initial scroll state) passes
+   the decidable contract check [draw_ok] (size within the maximum, well-formed tree, centred
+   child, panic only where documented) that the differential run applies to every step of the
+   implementation's histories. *)
+Theorem C14_history_meets_contract : forall steps top, Forall in_u16 steps ->
+  forallb draw_ok (combine steps (hist_run top steps)) = true.
+Proof. exact hist_run_contract. Qed.
+Print Assumptions C14_history_meets_contract.
+
+(* History-independence.  For Text, RichText, Button, TextField and Centers of them Draw writes
+   no field: from any state, every step returns exactly what a freshly built copy with the same
+   fields returns for that constraint — Draw is a function of (fields, constraint). *)
+Theorem C14_draw_function_of_fields_and_constraint : forall steps top,
+  forallb (fun inp : draw_input => negb (scroll_root (fst (fst inp)))) steps = true ->
+  hist_run top steps = map draw_run steps.
+Proof. exact hist_stateless. Qed.
+Print Assumptions C14_draw_function_of_fields_and_constraint.
+
+(* For every widget tree (list.Dynamic included): as long as each step, taken alone on a fresh
+   value, leaves the scroll index at 0 ([step_anchored], decidable), every step of the history
+   returns what a fresh copy returns. *)
+Theorem C14_history_independent : forall steps,
+  forallb step_anchored steps = true -> hist_run 0 steps = map draw_run steps.
+Proof. exact hist_independent. Qed.
+Print Assumptions C14_history_independent.
+
+(* ... which is guaranteed, for every constraint, by the fields alone when the list has Gap > 0
+   or (Gap = 0) a first item that is a Text/RichText with at least one line. *)
+Theorem C14_history_independent_fields : forall steps, Forall in_u16 steps ->
+  forallb (fun inp : draw_input => anchored_fields (fst (fst inp))) steps = true ->
+  hist_run 0 steps = map draw_run steps.
+Proof. exact hist_anchored_fields. Qed.
+Print Assumptions C14_history_independent_fields.
+
+(* The guard is needed (finding list-empty-first-item): a Dynamic whose first item has height 0
+   (an empty Text) with Gap 0 records top = 1 on its first Draw; the second Draw of the same
+   value returns 2 children where a fresh copy returns 3 (the first item is skipped from then
+   on, also after it gets content). *)
+Theorem C14_list_empty_first_item_refuted :
+  step_anchored (empty_first_list, 10, 4) = false /\
+  hist_tops 0 [(empty_first_list, 10, 4); (empty_first_list, 10, 4)] = [0; 1] /\
+  map (fun o : draw_obs => zlen (o_kids (snd o)))
+      (hist_run 0 [(empty_first_list, 10, 4); (empty_first_list, 10, 4)]) = [3; 2] /\
+  map (fun o : draw_obs => zlen (o_kids (snd o)))
+      (map draw_run [(empty_first_list, 10, 4); (empty_first_list, 10, 4)]) = [3; 3].
+Proof. exact list_history_dependent. Qed.
+Print Assumptions C14_list_empty_first_item_refuted.
+
+(* non-vacuity: a soft-wrapped text drawn with an ordinary, a zero and the same zero constraint
+   (the scanner yields no line for width 0); a list with Gap 1 drawn three times *)
+Example C14_example_history :
+  hist_run 0 [(WText false true [[(4, 1); (5, 1)]; [(6, 1)]], 20, 5); (WText false true [], 0, 0);
+              (WText false true [], 0, 0)]
+  = [(0, ONode 2 2 4 [(0, (4, 1)); (1, (5, 1)); (2, (6, 1))] []); (0, ONode 0 0 0 [] []); (0, ONode 0 0 0 [] [])] /\
+  forallb step_anchored [(WList true 1 [WText false true []; WText false true [[(4, 1)]]], 10, 4);
+                         (WList true 1 [WText false true []; WText false true [[(4, 1)]]], 0, 0)] = true /\
+  Forall in_u16 [(WText false true [], 0, 0); (WList true 1 [], 65535, 3)].
+Proof. split; [vm_compute; reflexivity|]. split; [vm_compute; reflexivity|]. repeat constructor; cbn; lia. Qed.
 
 (* ================================================================== render *)
 
